@@ -184,7 +184,8 @@ def check(case, ctx):
                 it = st_["its"][slot]
                 for _ in range(count):
                     try:
-                        r = tuple(next(it))
+                        raw = next(it)
+                        r = tuple(raw)
                     except StopIteration:
                         if fail_at is None and unp is None and st_["pos"][slot] != len(ref):
                             return Fail("%s/early-stop" % kind, "iterator stopped at %d of %d rows (history %r)" % (st_["pos"][slot], len(ref), case["steps"]))
@@ -207,6 +208,10 @@ def check(case, ctx):
                     except Exception as ex:
                         return exc_fail("%s/%s" % (kind, "cache" if cache else "nocache"), ex)
                     p = st_["pos"][slot]
+                    if p >= 1 and type(raw) is not tuple:
+                        # every path of these views (fresh sort, memory cache, chunk files, spill file) delivers DATA rows as tuples; a pass
+                        # served from a file that hands back what was pickled (the source's own lists) is not "the same sequence"
+                        return Fail("%s/row-type" % kind, "position %d: the row came as %s %r, not as a tuple (history %r)" % (p, type(raw).__name__, raw, case["steps"]))
                     if fail_at is not None and kind != "fromdicts" and p >= 1:
                         # every pass over a sort-backed view has to read the whole failing source before its first data row
                         return Fail("%s/served-despite-failing-source" % kind, "a data row %r was served although the source raises at item %d on every pass "
